@@ -126,6 +126,12 @@ func (fr *Frame) exec(in ssa.Instruction) {
 		fr.execSlice(i)
 	case *ssa.MakeClosure:
 		f := i.Fn.(*ssa.Function)
+		if f.Synthetic != "" && len(i.Bindings) == 1 && (f.Name() == "Broadcast$bound" || f.Name() == "Signal$bound") {
+			// the method value c.Broadcast handed out as a function: whoever calls it cannot take c.L
+			if g := fr.condLockedDecl(i.Bindings[0]); g != nil {
+				fr.condOblige(g, "method-value", i.Pos(), "false")
+			}
+		}
 		var binds []*Val
 		for _, b := range i.Bindings {
 			binds = append(binds, fr.val(b))
@@ -288,6 +294,21 @@ func (fr *Frame) execUnOp(i *ssa.UnOp) {
 		fr.curAddr = i.X
 		fr.guardAccess(l, false, i.Pos())
 		fr.curAddr = nil
+		// anchors `read <Type.field>` (a plain load of that field) and `load <Type>` (a plain copy of a
+		// whole struct of that type through a pointer, e.g. for a value-receiver method); loads done by
+		// sync/atomic are calls, not loads, and do not match
+		if fa, ok := i.X.(*ssa.FieldAddr); ok {
+			if n := namedOf(fa.X.Type()); n != nil {
+				if st, ok := n.Underlying().(*types.Struct); ok {
+					fr.anchorAsserts("read", n.Obj().Name()+"."+st.Field(fa.Field).Name(), i.Pos(), map[string]*Val{"recv": fr.val(fa.X)})
+				}
+			}
+		}
+		if n, ok := i.Type().(*types.Named); ok {
+			if _, isStruct := n.Underlying().(*types.Struct); isStruct {
+				fr.anchorAsserts("load", n.Obj().Name(), i.Pos(), map[string]*Val{"recv": fr.val(i.X)})
+			}
+		}
 		v := fr.loadLoc(l)
 		if g, ok := i.X.(*ssa.Global); ok && fr.vc.eng.pureGlobal(g) {
 			nv := *v
